@@ -102,15 +102,17 @@ Definition run (c : sx) : sx :=
           L (map (fun a => ofQI (match sphere_covI type scale degree sp a with Some x => i2qq x | None => None end)) al)
       | _, _, _, _ => sx_error 1
       end
-  | L [I 4%Z; I type; p; sc; nn] =>
-      (* normalised Legendre spectrum: (4 type param scale n) *)
-      match asQ p, asQ sc, asNat nn with
-      | Some param, Some scale, Some n =>
-          match sphere_spectrum type param scale n with
-          | Some l => L (map ofQ l)
-          | None => L []
-          end
-      | _, _, _ => sx_error 1
+  | L [I 4%Z; I type; p; sc; nn; cfs] =>
+      (* normalised Legendre spectrum: (4 type param scale n (markov coefficients)) ; exact (num den), or an enclosure for Exponential *)
+      match asQ p, asQ sc, asNat nn, asQL cfs with
+      | Some param, Some scale, Some n, Some coeffs =>
+          if Z.eqb type 1 then L (map (fun x => ofQI (i2qq x)) (i_spectrum_exponential scale n))
+          else if Z.eqb type 27 then L (map ofQ (normalize1 (spec_markov coeffs scale n)))
+          else match sphere_spectrum type param scale n with
+               | Some l => L (map ofQ l)
+               | None => L []
+               end
+      | _, _, _, _ => sx_error 1
       end
   | L [I 9%Z] =>
       L [ ofB (table_ok cov_table);
